@@ -79,3 +79,21 @@ for _rnd in (0, 1):
       functions=["mmd_export_token_html (arm PAIR_BRACKET_FOOTNOTE)"], callees={"footnote_from_bracket": "contract stub (its contract: unit used_footnote_from_bracket)", "DString": "ghost sink", "srand/rand": "uninterpreted ghost function R(seed)"},
       native=None, min_obligations=20, nobody_ok=[],
       assumptions=[NOFAIL, "rand() after srand(s) is a function of s only (uninterpreted R), result >= 0", "compiled with the repository's own -DI18N_DISABLED switch (the LC() string table costs 600k SAT variables per arm)"])
+
+# ---- (4) TOC entries link to the headings' ids: label derived with the heading's own index as label counter; entries in document order
+for _s, _fn, _tree, _files, _defs in (
+        ("html", "mmd_export_toc_entry_html", "mmd_export_token_tree_html", ["html.c"], ["-DTOC_MINMAX"]),
+        ("latex", "mmd_export_toc_entry_latex", "mmd_export_token_tree_latex", ["latex.c"], []),
+        ("opendocument", "mmd_export_toc_entry_opendocument", "mmd_export_token_tree_opendocument", ["opendocument-content.c"], ["-DTOC_MINMAX"]),
+        ("epub", "epub_export_nav_entry", "mmd_export_token_tree_html", ["epub.c", "html.c"], ["-DTOC_MMD_FIRST"])):
+    U("toc_labels_" + _s, ["C10"], "h_toc", ["C10/toc.c"], _files + ["writer.c", "stack.c"], enforce=_fn, rec=True, lib=(), kind="bounded",
+      drop_bodies=[_tree, "label_from_header", "trim_trailing_whitespace_d_string"],
+      defines=["-DI18N_DISABLED=1", "-DTOC_ENTRY=" + _fn, "-DTOC_TREE=" + _tree] + _defs,
+      cbmc_flags=["--unwind", "6", "--unwinding-assertions", "--object-bits", "12"],
+      bounds={"headings<=": 3, "heading kinds": "H1..H6, Setext 1/2 (symbolic)", "level, min, max, start index": "any", "unwind": 6},
+      functions=[_fn],
+      callees={"recursive call": "its own contract (--enforce-contract-rec)",
+               "label_from_header": "contract stub: requires header_stack[label_counter] == heading and label_counter above every earlier entry's; post-increments label_counter",
+               _tree: "contract stub (no effect on the counters)", "d_string_*, trim_trailing_whitespace_d_string": "no-op stubs (output not examined)",
+               "raw_level_for_header, stack_*": "body"},
+      min_obligations=20, timeout=300, cost=20, assumptions=[NOFAIL, "configuration -DI18N_DISABLED"])
